@@ -5,6 +5,7 @@
 //!        mhv merge-fp FILE...       (prints the size of the union of fingerprint files)
 mod conn;
 mod gen;
+mod hist;
 mod model;
 mod props;
 mod sim;
